@@ -31,6 +31,15 @@ SIDECAR_BRACES_INVALID; type faults may also carry the library's own type codes)
   empty-maps  categorical columns whose HED map is empty, alone, with Levels / Description, next to valid columns at every position,
            twice, and referenced through {column}: nothing raised, and every error-severity issue is a type / blank-entry code
            (or, for a referencing column, a reference code) located at the empty column (or the column referring to it).
+  type-matrix  every JSON value kind {null, true, false, 0, 1.5, "", [], {}, [..], [[..]..], nested object} written at each place of
+           a valid value / categorical column: as the column entry itself, as the "HED" value, as one category's value, as
+           "Levels" / "Description" next to a well-typed HED entry; the column alone and before / after other valid columns.  Never
+           raises.  A "HED" value or a category value that is neither a string nor (for "HED") a string-valued map breaks the
+           type rule, whatever non-string it is: an error with one of the library's DATA-TYPE codes (sidecarUnknownColumn,
+           wrongHedDataType, blankValueString - not the code of another rule such as the reserved-name rule's SIDECAR_INVALID),
+           located at that column; and relationally no value kind is special: the codes reported for null (true, 0, a list ...)
+           are codes that another non-string value at the same place gets too.  "Levels" / "Description" of any type and an
+           ill-typed column entry are no fault of the listed rules: no error (resp. the same verdict for every value kind).
 """
 import copy
 import io
@@ -67,6 +76,10 @@ L_EMPTYMAP = "C08.emptymap.errors_only_type_codes_at_that_column"
 L_DEFX_VALID = "C08.valid.def_expand_placeholder_counts_once"   # (Def-expand/Name/#, (... # ...)) is ONE placeholder (= Def/Name/#)
 
 TYPE_CODES = {"SIDECAR_INVALID", "wrongHedDataType", "sidecarUnknownColumn", "blankValueString"}
+# the library's documented codes for "a HED entry has the wrong JSON type" (hed/errors/error_types.py: SidecarErrors.UNKNOWN_COLUMN_TYPE,
+# WRONG_HED_DATA_TYPE, BLANK_HED_STRING).  SIDECAR_INVALID is what the reserved-name rule ('HED' misused as a name) and the n/a-key rule
+# publish: a data-type fault reported ONLY under it is attributed to a rule that was not broken.
+DATA_TYPE_CODES = {"wrongHedDataType", "sidecarUnknownColumn", "blankValueString"}
 EXPECTED = {L_F_TYPE: TYPE_CODES, L_F_VPOUND: {"PLACEHOLDER_INVALID"}, L_F_CPOUND: {"PLACEHOLDER_INVALID"},
             L_F_HEDNAME: {"SIDECAR_INVALID"}, L_F_NAKEY: {"SIDECAR_INVALID"}, L_F_BRACES: {"SIDECAR_BRACES_INVALID"},
             L_F_UNKNOWN: {"SIDECAR_BRACES_INVALID"}, L_F_SELF: {"SIDECAR_BRACES_INVALID"},
@@ -675,6 +688,91 @@ def check_empty_map(doc, involved):
             (L_EMPTYMAP, not bad, got, {"errors only with code in": sorted(allowed), "at column in": involved})]
 
 
+# ------------------------------------------------------------------------------------------------ type matrix
+NON_STRINGS = [("null", None), ("true", True), ("false", False), ("0", 0), ("1.5", 1.5), ("[]", []), ("[..]", ["Red"]),
+               ("[[..],..]", [["Red"], "Blue"])]                       # neither a string nor a map: the same rule is broken by each
+OTHER_KINDS = [('""', ""), ("{}", {}), ("nested", {"a": {"b": "Red"}})]
+
+
+def set_path(doc, path, value):
+    d = copy.deepcopy(doc)
+    cur = d
+    for k in path[:-1]:
+        cur = cur[k]
+    if path[-1] not in cur and len(path) == 2:      # a key added to the column entry (Levels / Description): put it first
+        new = {path[-1]: copy.deepcopy(value)}
+        new.update(cur)
+        d[path[0]] = new
+    else:
+        cur[path[-1]] = copy.deepcopy(value)
+    return d
+
+
+def type_matrix_items(quick):
+    """-> [("typematrix", base doc, place, path, involved)]"""
+    items = []
+    targets = ["val1", "val2", "cat1", "cat2"]
+    k = 0
+    for name in targets:
+        partner = {"val1": "cat2", "val2": "cat1", "cat1": "val1", "cat2": "val2"}[name]
+        layouts = [[name], [name, partner], [partner, name], ["ign1", name, partner]]
+        for li, names in enumerate(layouts):
+            base = {n: copy.deepcopy(COLUMNS[n]) for n in names}
+            places = [("column", [name]), ("hed", [name, "HED"]), ("levels", [name, "Levels"]), ("description", [name, "Description"])]
+            if kind(COLUMNS[name]) == "cat":
+                places += [("category", [name, "HED", key]) for key in COLUMNS[name]["HED"]]
+            for place, path in places:
+                k += 1
+                if quick and li and (k + li) % 2 and place in ("levels", "description", "column"):
+                    continue
+                items.append(("typematrix", base, place, path, [name]))
+    return items
+
+
+def check_type_matrix(base, place, path, involved):
+    res = []
+    codes_of = {}
+    for label, value in NON_STRINGS + OTHER_KINDS:
+        doc = set_path(base, path, value)
+        stage, payload = run_doc(json.dumps(doc))
+        if stage != "ok":
+            res.append((L_TOTAL, False, {"value": label, "result": f"{stage}: {payload}"}, "a list of issues, nothing raised"))
+            continue
+        res.append((L_TOTAL, True, None, None))
+        errs = error_issues(payload)
+        got = [(i["code"], i.get("ec_sidecarColumnName"), i.get("ec_sidecarKeyName")) for i in errs]
+        codes_of[label] = sorted({g[0] for g in got})
+        if place in ("levels", "description"):
+            # no listed rule speaks about these keys: the sidecar still obeys every structural rule
+            res.append((L_VALID, not got, {"value": label, "errors": got}, "no error-severity issue"))
+            continue
+        if place == "column":
+            continue
+        ill_typed = label in dict(NON_STRINGS) or label == "nested" or (place == "category" and label == "{}")
+        if not ill_typed:
+            continue                    # "" (a string) and {} as a HED map: other parts (value-templates, empty-maps)
+        hit = [i for i in errs if i["code"] in DATA_TYPE_CODES]
+        res.append((L_F_TYPE, bool(hit), {"value": label, "errors": got}, {"an error with code in": sorted(DATA_TYPE_CODES)}))
+        if hit:
+            where = [i.get("ec_sidecarColumnName") for i in hit]
+            res.append((L_F_LOC, all(c is None or c in involved for c in where), where, {"column in": involved}))
+    # relational: the rule "strings or string-valued maps" is broken alike by every non-string, so no value kind gets a code of its own
+    names = [n for n, _ in NON_STRINGS if n in codes_of]
+    for n in names:
+        others = set()
+        for m in names:
+            if m != n:
+                others.update(codes_of[m])
+        if place == "column":
+            ok = all(codes_of[m] == codes_of[n] for m in names)
+        else:
+            ok = set(codes_of[n]) <= others
+        if place in ("hed", "category", "column"):
+            res.append((L_F_TYPE if place != "column" else L_TOTAL, ok, {"value": n, "codes": codes_of[n], "codes_by_value": codes_of},
+                        "codes that another non-string value at this place gets too"))
+    return res
+
+
 # ------------------------------------------------------------------------------------------------ jobs
 def _job(job):
     _env()
@@ -699,6 +797,11 @@ def _job(job):
         elif item[0] == "emptymap":
             res = check_empty_map(item[1], item[2]["involved"])
             inp = dict({"mode": item[0], "doc": item[1]}, **item[2])
+        elif item[0] == "typematrix":
+            res = check_type_matrix(item[1], item[2], item[3], item[4])
+            inp = {"mode": item[0], "doc": item[1], "place": item[2], "path": item[3], "involved": item[4],
+                   "values": [v for _, v in NON_STRINGS + OTHER_KINDS]}
+            out["n"] += len(NON_STRINGS + OTHER_KINDS) - 1
         else:
             _, clause, desc, doc, involved = item[:5]
             codes = item[5] if len(item) > 5 else None
@@ -842,6 +945,17 @@ def run(w: Workload):
     w.part("empty-maps", cases=n, bound="categorical column with an empty HED map (4 shapes: bare, with Levels, with Description, "
            "with empty Levels) alone, twice, at every position of every 1-2 column layout of valid columns"
            + (" (quick: every second)" if w.quick else "") + ", referenced by a categorical / value column", exhaustive=not w.quick)
+    mitems = type_matrix_items(w.quick)
+    n = _absorb(w, _par(mitems, 6), counters, "typematrix", mitems)
+    for k in range(len(mitems)):
+        for label, _ in (NON_STRINGS + OTHER_KINDS)[1:]:
+            w.case(key=("typematrix", k, label), nontrivial=True)
+    w.part("type-matrix", cases=n, bound="%d (layout, column, place) groups x %d JSON value kinds (null, true, false, 0, 1.5, [], [..], "
+           "[[..],..], \"\", {}, nested object): columns val1 / val2 / cat1 / cat2 alone, before / after a valid partner column, "
+           "between an ignored and a partner column; places: the column entry, the HED value, each category's value, Levels, "
+           "Description%s" % (len(mitems), len(NON_STRINGS + OTHER_KINDS),
+                              " (quick: column / Levels / Description in every second non-single layout)" if w.quick else ""),
+           exhaustive=True)
     w.bounded[-1]["checks_per_clause"] = counters
     w.exhaustive = False
     w.not_covered += ["documents deeper than 3 levels or with more than 2 members per container; more than 2 columns in part 'total'",
@@ -874,6 +988,8 @@ def replay(w: Workload, case: dict):
         res = check_def_mixed(inp["doc"])
     elif inp["mode"] == "emptymap":
         res = check_empty_map(inp["doc"], inp["involved"])
+    elif inp["mode"] == "typematrix":
+        res = check_type_matrix(inp["doc"], inp["place"], inp["path"], inp["involved"])
     elif inp["mode"] == "total":
         res = check_total(inp["doc"])
     elif inp["mode"] == "valid":
